@@ -137,11 +137,13 @@ func (w *world) apply(op WOp) {
 	case "gc":
 		w.gc()
 	case "reload":
-		w.reload()
+		w.reload(op)
 	case "crash":
 		w.crash(op)
 	case "saveroot":
 		w.saveRoot()
+	case "setroot":
+		w.setRoot(op)
 	case "rollback":
 		w.rollback(op)
 	case "prove":
@@ -465,15 +467,47 @@ func (w *world) gc() {
 	}
 }
 
-func (w *world) reload() {
+// setRoot installs a root node through the public SetRoot: the trie's own state again, as a copy of its root or as
+// a hash reference to the last commit.
+func (w *world) setRoot(op WOp) {
 	if !w.clean || len(w.commits) == 0 {
 		return
 	}
 	rec := w.commits[len(w.commits)-1]
-	if rec.weight > 0 {
-		w.t = wmpt.New(wmpt.NewHashNode(rec.root, rec.weight), w.db)
-	} else {
+	if rec.weight == 0 {
+		return
+	}
+	switch op.N % 3 {
+	case 0:
+		w.guard("SetRoot(CopyRoot)", func() { w.t.SetRoot(w.t.CopyRoot((op.N / 3) % 4)) })
+		w.stats.Inc("probe.setroot-own-state")
+	case 1:
+		w.guard("SetRoot(hash of the last commit)", func() { w.t.SetRoot(wmpt.NewHashNode(rec.root, rec.weight)) })
+		w.stats.Inc("probe.setroot-own-state")
+	default:
+		// (not generated: SetRoot with a DIFFERENT committed state, e.g. the checkpoint's. On the unchanged tree the
+		// pending deletes collected on the way from that state are not dropped, and the next collector passes delete
+		// the nodes of the state just installed - going back is what Rollback / RollbackTrie are for; DESIGN.md 16.4)
+	}
+}
+
+func (w *world) reload(op WOp) {
+	if !w.clean || len(w.commits) == 0 {
+		return
+	}
+	rec := w.commits[len(w.commits)-1]
+	root := w.t.GetRoot()
+	switch {
+	case rec.weight == 0 || root == nil:
 		w.t = wmpt.New(nil, w.db)
+	// (not generated: a trie rooted at the public shallow Node.Copy() of a branch. Its short-node children are bare
+	// hash references, a shape the library never builds itself; on the unchanged tree an export from such a trie
+	// already loses the embedded short nodes and mirrored deletes diverge - see DESIGN.md 16.4)
+	case op.N%4 >= 2:
+		w.guard("CopyRoot", func() { w.t = wmpt.New(w.t.CopyRoot((op.N/4)%4), w.db) })
+		w.stats.Inc("probe.reload-from-copyroot")
+	default:
+		w.t = wmpt.New(wmpt.NewHashNode(rec.root, rec.weight), w.db)
 	}
 	w.cp = nil
 	w.stats.Inc("probe.reload")
